@@ -6,6 +6,7 @@ package main
 
 import (
 	"fmt"
+	"strings"
 )
 
 type RunReport struct {
@@ -60,6 +61,8 @@ func seqProfile(prop string, g *Gen, cfg *Config, rng *SplitMix) (steps int) {
 		cfg.Clock = []string{"fine", "coarse", "second", "second", "back"}[rng.Intn(5)]
 		steps = 18 + rng.Intn(22)
 	case "C09":
+		g.ForcePct = 25
+		g.W["new_task"] = 22
 		g.W["prune"] = 10
 		g.W["prune_dry"] = 6
 		g.W["set"] = 30
@@ -81,6 +84,7 @@ func seqProfile(prop string, g *Gen, cfg *Config, rng *SplitMix) (steps int) {
 		g.W["plan"] = 5
 		g.BadBias = 30
 	case "C16":
+		g.ForcePct = 8
 		g.Human = 0
 		g.BadBias = 20
 	case "C17":
@@ -142,6 +146,9 @@ func runSeqGenerated(bin, prop string, seed uint64) *RunReport {
 	}
 	for i := 0; i < n; i++ {
 		st := g.Next(r.M)
+		if prop == "C09" && len(r.M.Pruned) > 0 && rng.Chance(1, 8) {
+			st = Step{Disk: &DiskOp{Kind: "merge_pruned", N: rng.Intn(64), Pos: rng.Intn(1 << 20)}}
+		}
 		sc.Steps = append(sc.Steps, st)
 		r.ExecStep(st)
 	}
@@ -169,10 +176,17 @@ func (r *Run) ExecStep(st Step) {
 		r.DoCrash(*st.Cmd, *st.Crash)
 	case st.Cmd != nil:
 		if st.ForceID != "" {
-			r.W.Rand.ForceID(r.M.Resolve(st.ForceID))
-			r.W.Count.Inc("fault.id_collide")
+			if id := r.M.Resolve(st.ForceID); idRe.MatchString(id) && !strings.ContainsAny(id, "0189") {
+				r.W.Rand.ForceID(id)
+				if r.M.Pruned[id] {
+					r.W.Count.Inc("fault.id_collide_pruned")
+				} else {
+					r.W.Count.Inc("fault.id_collide_live")
+				}
+			}
 		}
 		r.DoCmd(*st.Cmd)
+		r.W.Rand.forced4 = nil // a forced draw is meant for this command only
 	}
 }
 
@@ -243,7 +257,7 @@ func planFor(prop string) *PropPlan {
 	p := &PropPlan{ID: prop, Level: "exploration", Assume: commonAssume}
 	switch prop {
 	case "C01", "C02", "C13":
-		p.Modes = []Mode{{Name: "conc", Quick: 24, Deep: 600,
+		p.Modes = []Mode{{Name: "conc", Quick: 40, Deep: 800,
 			Run:    func(bin string, seed uint64) *RunReport { return runConcSample(bin, prop, seed, false) },
 			Replay: ReplayConc}}
 		p.Rule = "per sample: a seeded pre-state (sequential history) and one batch of 2-6 concurrent ergo processes; from the same snapshot the batch is executed under seeded random and sticky schedules and under EVERY single-preemption schedule of the designated processes (process A runs to its k-th .ergo system call, everybody else runs to completion, A resumes; k = 0..K); evaluations = batch executions; a sample is non-trivial when at least one batch ran; distinct = distinct trace digests of samples; distinct_interleavings counts distinct context-switch sequences (process role x call class)"
